@@ -1,10 +1,10 @@
 package rules
 
 import (
-	"go/types"
-	"go/constant"
 	"fmt"
+	"go/constant"
 	"go/token"
+	"go/types"
 	"sort"
 	"strings"
 
@@ -99,9 +99,25 @@ func runC18(e *Env) {
 		}
 		if f := e.fn("C18.R2", "net/monitor/inactivity.Monitor.Notify"); f != nil {
 			ok := false
-			for _, c := range core.Calls(f, func(n string, _ ssa.CallInstruction) bool { return strings.HasSuffix(n, "atomic.Value.Store") }) {
-				if mi, isMI := core.Arg(c, 1).(*ssa.MakeInterface); isMI {
-					if now, isNow := mi.X.(*ssa.Call); isNow && core.CalleeName(now) == "time.Now" {
+			isNow := func(v ssa.Value) bool {
+				now, isCall := core.Resolve(v).(*ssa.Call)
+				return isCall && core.CalleeName(now) == "time.Now"
+			}
+			// the field the last activity lives in: an atomic holder (Value, Pointer[time.Time], Int64 of UnixNano, …) written with Store
+			for _, c := range core.Calls(f, func(n string, ci ssa.CallInstruction) bool {
+				return strings.HasPrefix(n, "sync/atomic.") && strings.HasSuffix(n, ".Store") && strings.HasSuffix(tableOfAddr(core.Arg(ci, 0)), ".lastActivity")
+			}) {
+				switch x := core.Arg(c, 1).(type) {
+				case *ssa.MakeInterface:
+					ok = ok || isNow(x.X)
+				case *ssa.Alloc:
+					// a pointer to a fresh variable holding time.Now()
+					if st := core.StoresToCell(x); len(st) == 1 && isNow(st[0].Val) {
+						ok = true
+					}
+				default:
+					// a number derived from time.Now() alone (UnixNano)
+					if call, isCall := core.Resolve(x).(*ssa.Call); isCall && strings.HasPrefix(core.CalleeName(call), "time.Time.Unix") && isNow(core.Arg(call, 0)) {
 						ok = true
 					}
 				}
@@ -116,22 +132,53 @@ func runC18(e *Env) {
 		c18KeepAlive(e)
 	}
 	if e.want("C18.R5") {
-		rf := e.fn("C18.R5", "net/monitor/inactivity.KeepAlive.resetFails")
-		if rf != nil {
-			var callers []string
-			for _, f := range e.P.SrcFuncs(false) {
-				for range core.Calls(f, func(_ string, ci ssa.CallInstruction) bool { return core.SameFunc(core.StaticFn(ci), rf) }) {
-					callers = append(callers, core.FnName(f))
+		rf := e.P.Func("net/monitor/inactivity.KeepAlive.resetFails")
+		// the pong callback(s): what OnInactive hands to sendPing
+		pong := map[*ssa.Function]bool{}
+		if oi := e.P.Func("net/monitor/inactivity.KeepAlive.OnInactive"); oi != nil {
+			core.Instrs(oi, func(in ssa.Instruction) {
+				if c, ok := in.(*ssa.Call); ok && isFieldLoadNamed(c.Call.Value, "sendPing") && len(c.Call.Args) >= 2 {
+					if cb, _ := core.MethodBehind(core.FuncArgClosure(c.Call.Args[1])); cb != nil {
+						for _, g := range core.WithAnon(cb) {
+							pong[g] = true
+						}
+					}
+				}
+			})
+		}
+		var callers []string
+		onlyPong := true
+		pos := "-"
+		for _, f := range e.P.SrcFuncs(false) {
+			if rf != nil && f == rf {
+				pos = e.fpos(rf)
+				continue
+			}
+			for _, g := range core.WithAnon(f) {
+				var sites []ssa.CallInstruction
+				if rf != nil {
+					sites = core.Calls(g, func(_ string, ci ssa.CallInstruction) bool {
+						return ci.Parent() == g && core.SameFunc(core.StaticFn(ci), rf)
+					})
+				}
+				for _, c := range failCounterResets(g) {
+					if c.Parent() == g {
+						sites = append(sites, c)
+					}
+				}
+				for range sites {
+					callers = append(callers, core.FnName(g))
+					if !pong[g] && !strings.Contains(core.FnName(g), "KeepAlive.OnInactive$") {
+						onlyPong = false
+					}
 				}
 			}
-			sort.Strings(callers)
-			onlyPong := true
-			for _, c := range callers {
-				if !strings.Contains(c, "KeepAlive.OnInactive$") {
-					onlyPong = false
-				}
-			}
-			e.R.Check(!onlyPong && len(callers) > 0, "C18.R5", "net/monitor/inactivity.KeepAlive.resetFails:reset-by-traffic", e.fpos(rf),
+		}
+		sort.Strings(callers)
+		if len(callers) == 0 && rf == nil {
+			e.R.Undecided("C18.R5", "net/monitor/inactivity.KeepAlive.resetFails:reset-by-traffic", "-", "no reset of the failure counter found (neither resetFails nor numFails.Store(0))")
+		} else {
+			e.R.Check(!onlyPong && len(callers) > 0, "C18.R5", "net/monitor/inactivity.KeepAlive.resetFails:reset-by-traffic", pos,
 				"the failure count is also reset from the receive-notification path", "the failure count is reset only by a matching pong ("+strings.Join(callers, ", ")+"): unanswered pings separated by ordinary traffic still add up to a close")
 		}
 	}
@@ -191,6 +238,14 @@ func c18KeepAlive(e *Env) {
 		return
 	}
 	incs := core.CallsNamed(f, "net/monitor/inactivity.KeepAlive.incrementFails")
+	if len(incs) == 0 {
+		// the one-line helper written out: numFails.Add(1)
+		incs = core.Calls(f, func(n string, ci ssa.CallInstruction) bool {
+			_, fl, ok := core.FieldOf(core.Arg(ci, 0))
+			k, isK := core.ConstInt(core.Arg(ci, 1))
+			return ok && fl == "numFails" && strings.HasSuffix(n, ".Add") && isK && k == 1
+		})
+	}
 	var fire, ping ssa.Instruction
 	core.Instrs(f, func(in ssa.Instruction) {
 		c, ok := in.(*ssa.Call)
@@ -229,6 +284,40 @@ func c18KeepAlive(e *Env) {
 	}
 	// cancel the superseded ping before sending the next
 	cc := core.CallsNamed(f, "net/monitor/inactivity.KeepAlive.checkCancelPing")
+	if len(cc) == 0 && ping != nil {
+		// the helper re-cut (e.g. "take the pending cancel function, the caller invokes it"): the pending cancellation is swapped
+		// out of its slot before the ping, and a function value is invoked between that swap and the ping
+		var swap ssa.Instruction
+		for _, c := range core.Calls(f, func(n string, ci ssa.CallInstruction) bool {
+			_, fl, ok := core.FieldOf(core.Arg(ci, 0))
+			return ok && fl == "cancelPing" && strings.HasSuffix(n, ".Swap")
+		}) {
+			if core.IsNilConst(core.Arg(c, 1)) && core.Dominates(c.(ssa.Instruction), ping) {
+				swap = c.(ssa.Instruction)
+			}
+		}
+		invoked := false
+		if swap != nil {
+			core.Instrs(f, func(in ssa.Instruction) {
+				c, ok := in.(*ssa.Call)
+				if !ok || c.Call.IsInvoke() || c.Call.StaticCallee() != nil {
+					return
+				}
+				if _, isB := c.Call.Value.(*ssa.Builtin); isB {
+					return
+				}
+				if sig, isSig := c.Call.Value.Type().Underlying().(*types.Signature); !isSig || sig.Params().Len() != 0 || sig.Results().Len() != 0 {
+					return
+				}
+				if core.Dominates(swap, c) && !core.Dominates(ping, c) && c != ping {
+					invoked = true
+				}
+			})
+		}
+		if swap != nil && invoked {
+			cc = []ssa.CallInstruction{swap.(ssa.CallInstruction)}
+		}
+	}
 	e.R.Check(len(cc) == 1 && ping != nil && core.Dominates(cc[0].(ssa.Instruction), ping), rule, "net/monitor/inactivity.KeepAlive.OnInactive:cancel-before-ping", e.fpos(f), "the superseded ping is cancelled before the next one is sent", "a superseded ping is not cancelled before the next ping")
 	// fresh generation per ping, pong resets only when the generation is current
 	var gen *ssa.Call
@@ -246,9 +335,17 @@ func c18KeepAlive(e *Env) {
 	e.R.Check(okGen, rule, "net/monitor/inactivity.KeepAlive.OnInactive:fresh-generation", e.fpos(f), "every ping takes a fresh generation number (pongToken.Add(1)) before it is sent", "pings do not get a fresh generation number")
 	okReset := false
 	if ping != nil && gen != nil {
-		cb := core.FuncArgClosure(core.Arg(ping.(*ssa.Call), 1))
+		cb, _ := core.MethodBehind(core.FuncArgClosure(core.Arg(ping.(*ssa.Call), 1))) // a function literal, or the method behind a method value
 		if cb != nil {
-			for _, c := range core.CallsNamed(cb, "net/monitor/inactivity.KeepAlive.resetFails") {
+			resets := core.CallsNamed(cb, "net/monitor/inactivity.KeepAlive.resetFails")
+			inlineReset := map[ssa.CallInstruction]bool{}
+			if len(resets) == 0 {
+				resets = failCounterResets(cb) // the one-line helper written out: numFails.Store(0)
+				for _, c := range resets {
+					inlineReset[c] = true
+				}
+			}
+			for _, c := range resets {
 				_, g := core.GuardedBy(c.(ssa.Instruction), func(cond ssa.Value) core.CondMatch {
 					cmp, is := core.AsCmp(cond)
 					if !is || (cmp.Op != token.EQL && cmp.Op != token.NEQ) {
@@ -277,8 +374,9 @@ func c18KeepAlive(e *Env) {
 				_, fl, ok := core.FieldOf(core.Arg(ci, 0))
 				return ok && fl == "numFails"
 			}) {
-				_ = c
-				okReset = false
+				if !inlineReset[c] {
+					okReset = false
+				}
 			}
 		}
 	}
@@ -374,4 +472,22 @@ func earlyLoopExit(f *ssa.Function) string {
 		}
 	}
 	return ""
+}
+
+// tableOfAddr names the struct field an address points at ("owner.field"; "" if it is not a field address).
+func tableOfAddr(addr ssa.Value) string {
+	owner, field, ok := core.FieldOf(addr)
+	if !ok {
+		return ""
+	}
+	return owner + "." + field
+}
+
+// failCounterResets: numFails.Store(0) calls in g (the body of resetFails written out).
+func failCounterResets(g *ssa.Function) []ssa.CallInstruction {
+	return core.Calls(g, func(n string, ci ssa.CallInstruction) bool {
+		_, fl, ok := core.FieldOf(core.Arg(ci, 0))
+		k, isK := core.ConstInt(core.Arg(ci, 1))
+		return ok && fl == "numFails" && strings.HasSuffix(n, ".Store") && isK && k == 0
+	})
 }
